@@ -58,4 +58,29 @@ def respInOfLines (addedGzip auto isHead hasBody : Bool) (lines : List Bytes) : 
   { addedGzip := addedGzip, autoDecompress := auto, isHead := isHead, hasBody := hasBody,
     ce := firstLine lines }
 
+/-! ### the repaired reading (fixes/C14-7): all lines, as ONE field value
+
+`compress.ContentEncoding(h)`: a single line as it stands, several lines joined with `", "`
+(RFC 9110 §5.3) — so that a response which stacks codings over several lines is a LIST for the
+decision, exactly like the same codings in one line. `process` (first line) is what /repo does
+until the patch is applied; `Joined.process` is the behaviour the lanes are judged against. -/
+
+def joinLines : List Bytes → Bytes
+  | [] => []
+  | [v] => v
+  | v :: w :: rest => v ++ [44, 32] ++ joinLines (w :: rest)
+
+def fieldValue (h : Header) : Bytes := joinLines (ceLines h)
+
+namespace Joined
+
+def respIn (s : Site) (c : ReqCfg) (auto hasBody : Bool) (r : Resp) : RespIn :=
+  { addedGzip := addGzip s c, autoDecompress := auto, isHead := c.isHead, hasBody := hasBody,
+    ce := fieldValue r.header }
+
+def process (s : Site) (c : ReqCfg) (auto hasBody : Bool) (r : Resp) : Out :=
+  applyAction (decideAt s (respIn s c auto hasBody r)) r
+
+end Joined
+
 end Req.Compress.Lines
